@@ -612,6 +612,9 @@ class CallMixin:
             return self.do_isinstance(st, ctx, args[0], args[1], k, node)
         if name == "type":
             x = args[0]
+            if isinstance(x, VOpt):
+                return self.branch(st, x.isnone, lambda s: self.call_builtin(s, ctx, name, [VNone()], kwargs, k, node),
+                                   lambda s: self.call_builtin(s, ctx, name, [x.val], kwargs, k, node))
             if isinstance(x, VObj):
                 return self.for_classes(st, x, lambda s, c: k(s, VFunc("typeof", name=c)))
             tn = {VInt: "int", VBool: "bool", VStr: "str", VTuple: "tuple", VList: "list", VNone: "NoneType", VU: "<scalar>"}.get(type(x))
